@@ -1,6 +1,6 @@
 """C13 -- direct Fourier transform, preloaded variant and adjoint are exact and consistent."""
 import numpy as np
-from pyvc.contract import contract, macro, corollary, CONTRACTS
+from pyvc.contract import contract, macro, corollary, spec_fn, CONTRACTS
 from pyvc import gens
 
 T = "autoarray.operators.transformer_util:"
@@ -84,3 +84,204 @@ CONTRACTS[T + "preload_imag_transforms"].gen = lambda rng, tier: _g_gu(rng, tier
 CONTRACTS[T + "visibilities_jit"].gen = lambda rng, tier: _g_gu(rng, tier, lambda r, n, k, g, uv: {"image_1d": gens.reals(r, (n,)), "grid_radians": g, "uv_wavelengths": uv})
 CONTRACTS[T + "visibilities_via_preload_jit_from"].gen = lambda rng, tier: _g_gu(rng, tier, lambda r, n, k, g, uv: {
     "image_1d": gens.reals(r, (n,)), "preloaded_reals": gens.reals(r, (n, k), -1, 1), "preloaded_imags": gens.reals(r, (n, k), -1, 1)})
+
+
+# ----------------------------------------------------------------------------- adjoint: image from visibilities
+# Re(A^H v)[p] = sum_k Re(conj(exp(i theta_pk)) * (vr_k + i vi_k)) = sum_k (vr_k cos(theta_pk) + vi_k sin(theta_pk)),
+# with A[k, p] = exp(i theta_pk), theta as above; visibilities are passed as a (K, 2) real array (re, im).
+# The kernel evaluates cos / sin at +2 pi (x u + y v) = -theta: the proof uses the two parity identities
+# cos(-t) = cos(t), sin(-t) = -sin(t) (uses_math "trig_parity", pyvc/ext/c13.py) and nothing else about cos / sin.
+_PHI = "2 * pi * (g[image_1d_index, 1] * uv[vis_1d_index, 0] + g[image_1d_index, 0] * uv[vis_1d_index, 1])"
+_ADJ = "sumto({n}, lambda k: visibilities[k, 0] * cos(theta(g, uv, {p}, k)) + visibilities[k, 1] * sin(theta(g, uv, {p}, k)))"
+contract(
+    T + "image_via_jit_from", props=["C13"],
+    types={"n_pixels": "int", "grid_radians": "real[2]", "uv_wavelengths": "real[2]", "visibilities": "real[2]"},
+    returns="real[1]", let=_G, uses_math=["trig_parity"],
+    requires=_GREQ + ["0 <= n_pixels", "n_pixels <= N", "visibilities.shape[0] == K", "visibilities.shape[1] == 2"],
+    ensures=["result.shape[0] == n_pixels",
+             "forall(0, n_pixels, lambda p: result[p] == " + _ADJ.format(n="K", p="p") + ")"],
+    loops={
+        0: {"inv": ["forall(0, image_1d_index, lambda p: image_1d[p] == " + _ADJ.format(n="K", p="p") + ")",
+                    "forall(image_1d_index, n_pixels, lambda p: image_1d[p] == 0)"]},
+        1: {"inv": ["forall(0, image_1d_index, lambda p: image_1d[p] == " + _ADJ.format(n="K", p="p") + ")",
+                    "forall(image_1d_index + 1, n_pixels, lambda p: image_1d[p] == 0)",
+                    "image_1d[image_1d_index] == " + _ADJ.format(n="vis_1d_index", p="image_1d_index")],
+            "assert_at": {0: ["cos(" + _PHI + ") == cos(theta(g, uv, image_1d_index, vis_1d_index))",
+                              "sin(" + _PHI + ") == -sin(theta(g, uv, image_1d_index, vis_1d_index))"]}},
+    },
+    sentence={"sumto": "the image returned from visibilities is the real part of the conjugate-transpose operator applied to them"},
+)
+
+# ----------------------------------------------------------------------------- transformed mapping matrix
+# T[k, j] = sum_p M[p, j] exp(i theta_pk) for EVERY real matrix M (no sign restriction; the `!= 0` test only skips zero terms)
+
+
+def _tmm(name, re_term, im_term, let, requires, types, K):
+    RE = "sumto({n}, lambda p: mapping_matrix[p, {j}] * " + re_term + ")"
+    IM = "sumto({n}, lambda p: mapping_matrix[p, {j}] * " + im_term + ")"
+    TM = "transfomed_mapping_matrix"
+
+    def both(arr, k, j, n):
+        return ("creal(%s[%s, %s]) == " % (arr, k, j) + RE.format(n=n, j=j, k=k)
+                + " and cimag(%s[%s, %s]) == " % (arr, k, j) + IM.format(n=n, j=j, k=k))
+    done = "forall(0, %s, lambda k: forall(0, pixel_1d_index, lambda j: %s))" % (K, both(TM, "k", "j", "N"))
+    zero = "forall(0, %s, lambda k: forall({lo}, P, lambda j: creal(%s[k, j]) == 0 and cimag(%s[k, j]) == 0))" % (K, TM, TM)
+    contract(
+        T + name, props=["C13", "C04"], types=types, returns="complex[2]", let=let, requires=requires,
+        ensures=["result.shape[0] == " + K, "result.shape[1] == P",
+                 "forall(0, %s, lambda k: forall(0, P, lambda j: %s))" % (K, both("result", "k", "j", "N"))],
+        loops={
+            0: {"inv": [done, zero.format(lo="pixel_1d_index")]},
+            1: {"inv": [done, zero.format(lo="pixel_1d_index + 1"),
+                        "forall(0, %s, lambda k: %s)" % (K, both(TM, "k", "pixel_1d_index", "image_1d_index"))]},
+            2: {"inv": [done, zero.format(lo="pixel_1d_index + 1"),
+                        "forall(0, vis_1d_index, lambda k: %s)" % both(TM, "k", "pixel_1d_index", "image_1d_index + 1"),
+                        "forall(vis_1d_index, %s, lambda k: %s)" % (K, both(TM, "k", "pixel_1d_index", "image_1d_index"))]},
+        },
+        sentence={"sumto": "the transformed mapping matrix equals the operator applied to each column of any real-valued matrix"},
+    )
+
+
+_tmm("transformed_mapping_matrix_via_preload_jit_from", "preloaded_reals[p, {k}]", "preloaded_imags[p, {k}]",
+     let={"N": "mapping_matrix.shape[0]", "P": "mapping_matrix.shape[1]", "K": "preloaded_reals.shape[1]"},
+     requires=["preloaded_reals.shape[0] == N", "preloaded_imags.shape[0] == N", "preloaded_imags.shape[1] == K"],
+     types={"mapping_matrix": "real[2]", "preloaded_reals": "real[2]", "preloaded_imags": "real[2]"}, K="K")
+_tmm("transformed_mapping_matrix_jit", "cos(theta(g, uv, p, {k}))", "sin(theta(g, uv, p, {k}))",
+     let={**_G, "P": "mapping_matrix.shape[1]"}, requires=_GREQ + ["mapping_matrix.shape[0] == N"],
+     types={"mapping_matrix": "real[2]", "grid_radians": "real[2]", "uv_wavelengths": "real[2]"}, K="K")
+
+# ----------------------------------------------------------------------------- interferometer data vector
+IU = "autoarray.inversion.inversion.interferometer.inversion_interferometer_util:"
+# D_j = sum_k ( Re V_k Re T_kj / Re(n_k)^2 + Im V_k Im T_kj / Im(n_k)^2 ): noise-weighted real-plus-imaginary products
+_DV = ("sumto({n}, lambda k: creal(visibilities[k]) * creal(transformed_mapping_matrix[k, {j}]) / creal(noise_map[k]) ** 2"
+       " + cimag(visibilities[k]) * cimag(transformed_mapping_matrix[k, {j}]) / cimag(noise_map[k]) ** 2)")
+contract(
+    IU + "data_vector_via_transformed_mapping_matrix_from", props=["C13", "C04"],
+    types={"transformed_mapping_matrix": "complex[2]", "visibilities": "complex[1]", "noise_map": "complex[1]"},
+    returns="real[1]",
+    let={"K": "transformed_mapping_matrix.shape[0]", "P": "transformed_mapping_matrix.shape[1]"},
+    requires=["visibilities.shape[0] == K", "noise_map.shape[0] == K",
+              "forall(0, K, lambda k: creal(noise_map[k]) != 0 and cimag(noise_map[k]) != 0)"],
+    ensures=["result.shape[0] == P", "forall(0, P, lambda j: result[j] == " + _DV.format(n="K", j="j") + ")"],
+    loops={
+        0: {"inv": ["forall(0, P, lambda j: data_vector[j] == " + _DV.format(n="vis_1d_index", j="j") + ")"]},
+        1: {"inv": ["forall(0, pix_1d_index, lambda j: data_vector[j] == " + _DV.format(n="vis_1d_index + 1", j="j") + ")",
+                    "forall(pix_1d_index, P, lambda j: data_vector[j] == " + _DV.format(n="vis_1d_index", j="j") + ")"],
+            "assert_at": {2: ["real_value == creal(visibilities[vis_1d_index]) * creal(transformed_mapping_matrix[vis_1d_index, pix_1d_index])"
+                              " / creal(noise_map[vis_1d_index]) ** 2",
+                              "imag_value == cimag(visibilities[vis_1d_index]) * cimag(transformed_mapping_matrix[vis_1d_index, pix_1d_index])"
+                              " / cimag(noise_map[vis_1d_index]) ** 2"]}},
+    },
+    sentence={"sumto": "the interferometer data vector equals the noise-weighted real-plus-imaginary products of the transformed mapping matrix with the visibilities"},
+)
+
+
+# ----------------------------------------------------------------------------- preload == direct (corollaries)
+# The two visibilities contracts (and the two mapping-matrix contracts) state their sums over different summands
+# (table entry vs cos / sin of the phase), i.e. over two different partial-sum functions.  That the sums agree when the
+# tables hold exactly cos / sin of the phases is an induction on the number of pixels summed; the ghost functions below
+# only carry that induction (their own value -- the identity on n -- is irrelevant and trivially consistent).
+_TABS = ("g.shape[0] == N and g.shape[1] == 2 and uv.shape[1] == 2 and PR.shape[0] == N and PR.shape[1] == K"
+         " and PI.shape[0] == N and PI.shape[1] == K and forall(0, N, lambda p: forall(0, K, lambda k:"
+         " PR[p, k] == cos(theta(g, uv, p, k)) and PI[p, k] == sin(theta(g, uv, p, k)), pat=(PR[p, k], PI[p, k])))")
+spec_fn(
+    "dft_vis_upto", params=[("I", "real[1]"), ("g", "real[2]"), ("uv", "real[2]"), ("PR", "real[2]"), ("PI", "real[2]"), ("n", "int")],
+    ret="int", let={"N": "I.shape[0]", "K": "uv.shape[0]"},
+    axioms=["forall(0, N + 1, lambda n: dft_vis_upto(I, g, uv, PR, PI, n) == n, pat=dft_vis_upto(I, g, uv, PR, PI, n))"],
+    lemmas=[dict(name="agree", induct="n", lo=0, hi="N",
+                 stmt="implies(" + _TABS + ", forall(0, K, lambda k:"
+                      " sumto(n, lambda p: I[p] * PR[p, k]) == sumto(n, lambda p: I[p] * cos(theta(g, uv, p, k)))"
+                      " and sumto(n, lambda p: I[p] * PI[p, k]) == sumto(n, lambda p: I[p] * sin(theta(g, uv, p, k))),"
+                      " pat=(sumto(n, lambda p: I[p] * PR[p, k]), sumto(n, lambda p: I[p] * PI[p, k]))))")],
+    py=lambda I, g, uv, PR, PI, n: int(n),
+    doc="ghost carrier of the induction: table sums == phase sums when the tables are exact (visibilities)")
+spec_fn(
+    "dft_tmm_upto", params=[("M", "real[2]"), ("g", "real[2]"), ("uv", "real[2]"), ("PR", "real[2]"), ("PI", "real[2]"), ("n", "int")],
+    ret="int", let={"N": "M.shape[0]", "P": "M.shape[1]", "K": "uv.shape[0]"},
+    axioms=["forall(0, N + 1, lambda n: dft_tmm_upto(M, g, uv, PR, PI, n) == n, pat=dft_tmm_upto(M, g, uv, PR, PI, n))"],
+    lemmas=[dict(name="agree", induct="n", lo=0, hi="N",
+                 stmt="implies(" + _TABS + ", forall(0, K, lambda k: forall(0, P, lambda j:"
+                      " sumto(n, lambda p: M[p, j] * PR[p, k]) == sumto(n, lambda p: M[p, j] * cos(theta(g, uv, p, k)))"
+                      " and sumto(n, lambda p: M[p, j] * PI[p, k]) == sumto(n, lambda p: M[p, j] * sin(theta(g, uv, p, k))),"
+                      " pat=(sumto(n, lambda p: M[p, j] * PR[p, k]), sumto(n, lambda p: M[p, j] * PI[p, k])))))")],
+    py=lambda M, g, uv, PR, PI, n: int(n),
+    doc="ghost carrier of the induction: table sums == phase sums when the tables are exact (mapping matrix columns)")
+
+_GU = {"grid_radians": "grid_radians", "uv_wavelengths": "uv_wavelengths"}
+corollary("C13.preload_equals_direct", props=["C13"],
+          vars={"image_1d": "real[1]", "grid_radians": "real[2]", "uv_wavelengths": "real[2]"},
+          let={"N": "grid_radians.shape[0]", "K": "uv_wavelengths.shape[0]"},
+          requires=_GREQ + ["image_1d.shape[0] == N"],
+          calls=[("PR", T + "preload_real_transforms", _GU), ("PI", T + "preload_imag_transforms", _GU),
+                 ("VP", T + "visibilities_via_preload_jit_from", {"image_1d": "image_1d", "preloaded_reals": "PR", "preloaded_imags": "PI"}),
+                 ("VD", T + "visibilities_jit", {"image_1d": "image_1d", **_GU})],
+          ensures=["dft_vis_upto(image_1d, grid_radians, uv_wavelengths, PR, PI, N) == N",     # ghost: brings the induction lemma in
+                   "VP.shape[0] == VD.shape[0]",
+                   "forall(0, K, lambda k: creal(VP[k]) == creal(VD[k]) and cimag(VP[k]) == cimag(VD[k]))"],
+          sentence="visibilities are identical with and without preloaded transform tables")
+corollary("C13.preload_equals_direct_mapping_matrix", props=["C13"],
+          vars={"mapping_matrix": "real[2]", "grid_radians": "real[2]", "uv_wavelengths": "real[2]"},
+          let={"N": "grid_radians.shape[0]", "K": "uv_wavelengths.shape[0]", "P": "mapping_matrix.shape[1]"},
+          requires=_GREQ + ["mapping_matrix.shape[0] == N"],
+          calls=[("PR", T + "preload_real_transforms", _GU), ("PI", T + "preload_imag_transforms", _GU),
+                 ("TP", T + "transformed_mapping_matrix_via_preload_jit_from",
+                  {"mapping_matrix": "mapping_matrix", "preloaded_reals": "PR", "preloaded_imags": "PI"}),
+                 ("TD", T + "transformed_mapping_matrix_jit", {"mapping_matrix": "mapping_matrix", **_GU})],
+          ensures=["dft_tmm_upto(mapping_matrix, grid_radians, uv_wavelengths, PR, PI, N) == N",
+                   "TP.shape[0] == TD.shape[0] and TP.shape[1] == TD.shape[1]",
+                   "forall(0, K, lambda k: forall(0, P, lambda j: creal(TP[k, j]) == creal(TD[k, j]) and cimag(TP[k, j]) == cimag(TD[k, j])))"],
+          sentence="the transformed mapping matrix is identical with and without preloaded transform tables")
+
+
+def _g_uv(rng, k):
+    """baselines including zero and repeated ones"""
+    uv = gens.reals(rng, (k, 2), -3e4, 3e4, special=False)
+    if rng.random() < 0.3:
+        uv[rng.randrange(k)] = 0.0
+    if k > 1 and rng.random() < 0.3:
+        uv[k - 1] = uv[0]
+    return uv
+
+
+def _signed(rng, shape):
+    """real matrix of any sign with exact zeros (the sparsity shortcut) -- all-positive in a minority of cases"""
+    m = gens.reals(rng, shape, -3, 3, special=False)
+    m[np.array([[rng.random() < 0.3 for _ in range(shape[1])] for _ in range(shape[0])], dtype=bool).reshape(shape)] = 0.0
+    return np.abs(m) if rng.random() < 0.2 else m
+
+
+def _g_adj(rng, tier):
+    for _ in range(gens.budget(tier, 150, 2000)):
+        n, k = rng.randint(1, 5), rng.randint(1, 4)
+        yield {"n_pixels": rng.choice([n, n, rng.randint(0, n)]), "grid_radians": gens.reals(rng, (n, 2), -1e-5, 1e-5, special=False),
+               "uv_wavelengths": _g_uv(rng, k), "visibilities": gens.reals(rng, (k, 2), -5, 5, special=False)}
+
+
+def _g_tmm_pre(rng, tier):
+    for _ in range(gens.budget(tier, 150, 2000)):
+        n, k, p = rng.randint(1, 4), rng.randint(1, 4), rng.randint(1, 3)
+        yield {"mapping_matrix": _signed(rng, (n, p)), "preloaded_reals": gens.reals(rng, (n, k), -1, 1),
+               "preloaded_imags": gens.reals(rng, (n, k), -1, 1)}
+
+
+def _g_tmm(rng, tier):
+    for _ in range(gens.budget(tier, 150, 2000)):
+        n, k, p = rng.randint(1, 4), rng.randint(1, 4), rng.randint(1, 3)
+        yield {"mapping_matrix": _signed(rng, (n, p)), "grid_radians": gens.reals(rng, (n, 2), -1e-5, 1e-5, special=False),
+               "uv_wavelengths": _g_uv(rng, k)}
+
+
+def _g_dv(rng, tier):
+    for _ in range(gens.budget(tier, 150, 2000)):
+        k, p = rng.randint(1, 5), rng.randint(1, 4)
+        yield {"transformed_mapping_matrix": gens.reals(rng, (k, p), -3, 3) + 1j * gens.reals(rng, (k, p), -3, 3),
+               "visibilities": gens.reals(rng, (k,), -5, 5) + 1j * gens.reals(rng, (k,), -5, 5),
+               "noise_map": gens.reals(rng, (k,), 0.1, 3, special=False) + 1j * gens.reals(rng, (k,), 0.1, 3, special=False)}
+
+
+CONTRACTS[T + "image_via_jit_from"].gen = _g_adj
+CONTRACTS[T + "transformed_mapping_matrix_via_preload_jit_from"].gen = _g_tmm_pre
+CONTRACTS[T + "transformed_mapping_matrix_jit"].gen = _g_tmm
+for _n in ("transformed_mapping_matrix_via_preload_jit_from", "transformed_mapping_matrix_jit"):
+    CONTRACTS[T + _n].nontrivial = lambda mapping_matrix, **kw: bool((mapping_matrix < 0).any())
+CONTRACTS[IU + "data_vector_via_transformed_mapping_matrix_from"].gen = _g_dv
